@@ -693,6 +693,145 @@ Proof.
 Qed.
 
 (* ------------------------------------------------------------------ *)
+(* what a successful open establishes for the walks that follow it *)
+Lemma dir_loop_path strict v num_dir im ns fat : forall f cur count seen acc ds,
+  dir_loop f strict v num_dir im ns fat cur count seen acc = Ok ds ->
+  exists l, path fat cur l /\ NoDup l /\ (forall x, In x l -> ~ In x seen).
+Proof.
+  induction f as [|f IH]; intros cur count seen acc ds; [discriminate|].
+  cbn [dir_loop]. destruct (N.eqb_spec cur END_OF_CHAIN) as [->|Hc].
+  { intros _. exists []. split; [constructor|]. split; [constructor|]. intros x []. }
+  destruct (_ && _); [discriminate|].
+  destruct (_ <? cur); [discriminate|].
+  destruct (_ <=? cur); [discriminate|].
+  destruct (memN cur seen) eqn:Hmem; [discriminate|]. apply memN_false in Hmem.
+  cbv zeta. intros H. apply rbind_Ok in H. destruct H as (es & _ & H).
+  apply rbind_Ok in H. destruct H as (nx & Hnx & H).
+  apply IH in H. destruct H as (l & Hp & Hnd & Hdis).
+  exists (cur :: l). split; [econstructor; eauto|]. split.
+  - constructor; [|exact Hnd]. intros Hin. apply (Hdis cur Hin). left; reflexivity.
+  - intros x [<-|Hx]; [exact Hmem|]. intros Hs. apply (Hdis x Hx). right; exact Hs.
+Qed.
+
+Lemma mini_validate_Ok strict rl mf mf' fr :
+  mini_validate strict rl mf = Ok (mf', fr) -> check_pointees true mf' (lenN mf') [] = Ok tt.
+Proof.
+  unfold mini_validate. cbv zeta. intros H. apply rbind_Ok in H. destruct H as (mf1 & _ & H).
+  destruct (check_pointees true mf1 (lenN mf1) []) as [[]| | |] eqn:E; try discriminate.
+  cbn [rbind] in H. injection H as <- _. exact E.
+Qed.
+
+Theorem open_post strict bytes s :
+  open_model strict bytes = Ok s ->
+  check_pointees false (fat s) (lenN (fat s)) [] = Ok tt /\
+  check_pointees true (minifat s) (lenN (minifat s)) [] = Ok tt /\
+  (exists ids, chain_ids_of (fat s) (dir_start s) = Ok ids) /\
+  (exists ids, chain_ids_of (fat s) (minifat_start s) = Ok ids) /\
+  dirs s <> [].
+Proof.
+  unfold open_model. cbv zeta.
+  destruct (_ <? HEADER_LEN); [discriminate|].
+  intros H. apply rbind_Ok in H. destruct H as (h & _ & H).
+  destruct (_ <? lenN bytes); [discriminate|].
+  destruct (lenN bytes <? _); [discriminate|].
+  apply rbind_Ok in H. destruct H as ([ids difat0] & _ & H). cbv beta iota in H.
+  destruct (_ && _); [discriminate|].
+  destruct (strict && negb _); [discriminate|].
+  apply rbind_Ok in H. destruct H as (fat0 & _ & H).
+  apply rbind_Ok in H. destruct H as ([fat4 fr] & Hav & H). cbv beta iota in H.
+  apply alloc_validate_Ok in Hav.
+  apply rbind_Ok in H. destruct H as (ds & Hds & H).
+  apply dir_loop_path in Hds. destruct Hds as (l & Hp & Hnd & _).
+  apply rbind_Ok in H. destruct H as (_ & _ & H).
+  apply rbind_Ok in H. destruct H as ([c s1] & Hc & H). cbv beta iota in H.
+  apply run_Ok in Hc. unfold chain_new, bind, get, lift, ret in Hc. cbv beta iota in Hc. cbn [fat] in Hc.
+  destruct (chain_ids_of fat4 (h_first_minifat h)) as [cids| | |] eqn:Hci; try discriminate.
+  destruct (_ && _); [discriminate|].
+  apply rbind_Ok in H. destruct H as ([[c2 mbytes] s2] & _ & H). cbv beta iota in H.
+  destruct ds as [|root t] eqn:Eds; [discriminate|].
+  apply rbind_Ok in H. destruct H as ([mf mfr] & Hmv & [= <-]).
+  apply mini_validate_Ok in Hmv.
+  cbn [fat minifat dir_start minifat_start dirs].
+  repeat split; try assumption; try discriminate.
+  - exists l. apply chain_ids_of_path; assumption.
+  - exists cids. exact Hci.
+Qed.
+
+(* hence every chain walk on a freshly opened file terminates *)
+Corollary open_then_walks_fine strict bytes s :
+  open_model strict bytes = Ok s ->
+  (forall start, fine (chain_ids_of (fat s) start)) /\
+  (forall start, fine (chain_ids_of (minifat s) start)) /\
+  (forall start, fine (find_last_go (S (S (length (fat s)))) (fat s) 0 start)).
+Proof.
+  intros H. apply open_post in H. destruct H as (H1 & H2 & _).
+  split; [|split]; intros start.
+  - eapply chain_ids_fine; eauto.
+  - eapply chain_ids_fine; eauto.
+  - apply find_last_fine.
+Qed.
+
+(* ------------------------------------------------------------------ *)
+(* Chain::read_exact from any in-range offset: the first round may be partial,
+   after it the offset is sector-aligned; fuel n / sl + 3 covers that. *)
+Lemma slen_pos s : 0 < slen s.
+Proof. unfold slen. destruct (sector_len_cases (ver s)) as [E|E]; rewrite E; lia. Qed.
+
+Lemma chain_read_go_fine_gen s : forall f c n acc,
+  c_off c <= chain_len (slen s) c ->
+  (N.to_nat (n / slen s) + 3 <= f)%nat ->
+  fine (snd (chain_read_go f c n acc s)).
+Proof.
+  pose proof (slen_pos s) as Hsl.
+  intros f c n acc Hoff Hf.
+  assert (Hf3 : (3 <= f)%nat) by (revert Hf; generalize (N.to_nat (n / slen s)); intros; lia).
+  destruct (N.eq_dec (c_off c mod slen s) 0) as [Hal|Hal].
+  { apply chain_read_go_fine; [assumption| |assumption| |].
+    - right. exists (c_off c / slen s).
+      pose proof (N.div_mod' (c_off c) (slen s)) as E. rewrite Hal, N.add_0_r in E. exact E.
+    - generalize dependent (N.to_nat (n / slen s)). intros; lia.
+    - intros _. generalize dependent (N.to_nat (n / slen s)). intros; lia. }
+  destruct f as [|f]; [clear Hf; lia|].
+  cbn [chain_read_go]. destruct (N.eqb_spec n 0) as [Hn|Hn]; [exact I|].
+  unfold bind at 1, get at 1. cbv beta iota zeta.
+  unfold chain_len in *. set (sl := slen s) in *. set (L := lenN (c_ids c)) in *.
+  set (q := c_off c / sl). set (ow := c_off c mod sl) in *.
+  assert (Hdm : c_off c = sl * q + ow) by apply N.div_mod'.
+  assert (How : ow < sl) by (apply N.mod_lt; lia).
+  assert (How0 : ow <> 0) by exact Hal.
+  clearbody q ow. clear Hal.
+  destruct (N.ltb_spec (sl * L) (c_off c)); [lia|].
+  destruct (N.eqb_spec (N.min n (sl * L - c_off c)) 0) as [|Hmax]; [exact I|].
+  assert (HqL : q < L).
+  { destruct (N.lt_ge_cases q L) as [|Hge]; [assumption|exfalso].
+    assert (sl * L <= sl * q) by (apply N.mul_le_mono_l; assumption). lia. }
+  assert (Hroom : sl * (q + 1) <= sl * L) by (apply N.mul_le_mono_l; lia).
+  destruct (nthN (c_ids c) q) as [sid|] eqn:Hnth.
+  2:{ apply nthN_None_ge in Hnth. fold L in Hnth. lia. }
+  set (k := N.min (N.min n (sl * L - c_off c)) (sl - ow)).
+  unfold bind at 1.
+  destruct (sector_read_exact_spec sid ow k s) as (r & -> & Hr); [fold sl; lia|].
+  destruct r; try contradiction; cbv beta iota; [|exact I].
+  assert (Hk : k = N.min (N.min n (sl * L - c_off c)) (sl - ow)) by reflexivity.
+  clearbody k.
+  assert (Hd : (n - k) / sl <= n / sl) by (apply N.div_le_mono; lia).
+  apply chain_read_go_fine; [assumption| | | |]; unfold chain_len; cbn [c_off c_ids]; fold sl; fold L.
+  - destruct (N.eq_dec k n); [left; lia|right].
+    destruct (N.eq_dec k (sl - ow)); [exists (q + 1); lia|exists L; lia].
+  - clear Hd Hf. lia.
+  - lia.
+  - intros _. set (d := (n - k) / sl) in *. set (d' := n / sl) in *. lia.
+Qed.
+
+Theorem chain_read_exact_fine_gen c n s :
+  c_off c <= chain_len (slen s) c -> fine (snd (chain_read_exact c n s)).
+Proof.
+  intros H. unfold chain_read_exact, bind at 1, get at 1. cbv beta iota.
+  apply chain_read_go_fine_gen; [assumption|].
+  generalize (N.to_nat (n / slen s)). intros; lia.
+Qed.
+
+(* ------------------------------------------------------------------ *)
 Check difat_loop_total.
 Check dir_loop_total.
 Check dir_dfs_total.
@@ -700,6 +839,9 @@ Check dirent_decode_total.
 Check header_decode_total.
 Check open_total.
 Check open_size_bound.
+Check open_post.
+Check open_then_walks_fine.
+Check chain_read_exact_fine_gen.
 Print Assumptions difat_loop_total.
 Print Assumptions dir_loop_total.
 Print Assumptions dir_dfs_total.
@@ -707,3 +849,6 @@ Print Assumptions dirent_decode_total.
 Print Assumptions header_decode_total.
 Print Assumptions open_total.
 Print Assumptions open_size_bound.
+Print Assumptions open_post.
+Print Assumptions open_then_walks_fine.
+Print Assumptions chain_read_exact_fine_gen.
